@@ -782,3 +782,66 @@ func init() {
 	register(&Scenario{Prop: "C12", Name: "c12/two-listeners-one-server", Quick: []Bound{{0, 0}}, Thorough: []Bound{{0, 0}}, Body: c12TwoListeners, MinHB: 1, MaxSteps: 200000, BudgetQ: 20})
 	register(&Scenario{Prop: "C12", Name: "c12/error-texts-as-data", Quick: []Bound{{0, 0}}, Thorough: []Bound{{0, 0}}, Body: c06DataTextsBodyP("C12"), MaxSteps: 200000, BudgetQ: 15, MinHB: 1})
 }
+
+// two parties in one process each start from rpc.DefaultOptions() and customise their copy (another
+// header encoder, another body codec): neither sees the other's settings - a connection made to the
+// first server after the second party has set its options still works.
+func c12DefaultOptionsTwice(x *X) {
+	encB := []string{"json", "code", "pb"}[x.Choose(3)]
+	n := newNet()
+	w := newWorld()
+	oa := rpc.DefaultOptions()
+	oa.NewSocket = n.Socket
+	oa.NewCodec = func() rpc.Codec { return &rpc.BYTESCodec{} }
+	srvA := newServer(w, srvOpts{bufSize: 64})
+	vs.GoLib("ListenA", func() { srvA.ListenWithOptions("A", oa) })
+	vs.Quiesce()
+	ob := rpc.DefaultOptions()
+	if ob == oa {
+		x.Fail("C12/default-options-shared", "two calls of DefaultOptions() returned the same *Options")
+	}
+	ob.NewSocket = n.Socket
+	ob.HeaderEncoder = encB
+	ob.NewCodec = func() rpc.Codec { return &rpc.BYTESCodec{} }
+	srvB := newServer(w, srvOpts{bufSize: 64})
+	vs.GoLib("ListenB", func() { srvB.ListenWithOptions("B", ob) })
+	vs.Quiesce()
+	use := func(addr string, o *rpc.Options, tag byte) string {
+		res := "hang"
+		vs.GoNamed("client-"+addr, func() {
+			conn, err := rpc.DialWithOptions(addr, o)
+			if err != nil {
+				res = "dial:" + err.Error()
+				return
+			}
+			c := newUcall(tag, 0, 20, formCall)
+			c.issue(conn)
+			if c.err != nil || !eqBytes(c.reply, c.want()) {
+				res = "E:" + errStr(c.err)
+			} else {
+				res = "ok"
+			}
+			conn.Close()
+		})
+		vs.Quiesce()
+		return res
+	}
+	got := []string{use("A", oa, 1), use("B", ob, 2), use("A", oa, 3)}
+	for i, g := range got {
+		if g != "ok" {
+			x.Fail("C12/default-options-interfere", "server A was configured from DefaultOptions(), then server B from another DefaultOptions() with HeaderEncoder %q; client %d (A, B, A) got %q", encB, i, g)
+			break
+		}
+	}
+	if oa.HeaderEncoder != "" {
+		x.Fail("C12/default-options-shared", "customising the second DefaultOptions() changed the first: HeaderEncoder is %q", oa.HeaderEncoder)
+	}
+	x.Outcome("encB=%s %v", encB, got)
+	srvA.Close()
+	srvB.Close()
+	vs.Quiesce()
+}
+
+func init() {
+	register(&Scenario{Prop: "C12", Name: "c12/default-options-twice", Quick: []Bound{{0, 0}}, Thorough: []Bound{{0, 0}}, Body: c12DefaultOptionsTwice, MinHB: 1, MaxSteps: 200000, BudgetQ: 10})
+}
